@@ -213,7 +213,7 @@ func runC08(b *mon.B) {
 	pl := &c08Planner{}
 	srv := startLibServer()
 	srv.Secrets.h = srv.Tap.Wrap("initial", pl)
-	srv.Net.KeepLog = false
+	srv.Net.SetKeepLog(false)
 	defer srv.Stop()
 	c := &c08Runner{b: b, srv: srv, pl: pl, secret: []byte("c08-secret"), r: r, seen: map[string]bool{}}
 
